@@ -1,0 +1,100 @@
+//go:build verif
+
+// Contracts for package tcp, read by /verif/govc (comment lines starting with //@).
+
+package tcp
+
+import (
+	"encoding/binary"
+	"net/netip"
+
+	"github.com/DataDog/datadog-traceroute/packets"
+)
+
+func specLocal(t *tcpDriver) netip.AddrPort  { return t.getLocalAddrPort() }
+func specTarget(t *tcpDriver) netip.AddrPort { return t.getTargetAddrPort() }
+
+func specIsTCP(p *packets.FrameParser) bool { return len(p.Layers) >= 2 && int(p.Layers[1]) == 44 }
+func specIsTE4(p *packets.FrameParser) bool { return len(p.Layers) >= 2 && int(p.Layers[1]) == 19 && p.IsTTLExceeded() }
+
+// specLast is the most recently sent probe (the serial engine only listens after sending).
+func specLast(t *tcpDriver) probeData { return t.sentProbes[len(t.sentProbes)-1] }
+
+// specGenuineDirect: a direct reply on the probe's own flow — from target:port to local:port, SYN+ACK or RST,
+// acknowledging (when it carries an ACK) the sequence number of the last sent probe. Such a reply carries no
+// per-probe identifier in default mode, so it is credited to the most recently sent probe.
+func specGenuineDirect(t *tcpDriver, p *packets.FrameParser, ttl uint8) bool {
+	tcp := &p.TCP
+	synack := tcp.SYN && tcp.ACK
+	rstack := tcp.RST && tcp.ACK
+	return specIsTCP(p) && (synack || tcp.RST) &&
+		packets.SpecOuterSrc(p) == specTarget(t).Addr() && packets.SpecOuterDst(p) == specLocal(t).Addr() &&
+		uint16(tcp.SrcPort) == t.config.DestPort && uint16(tcp.DstPort) == t.config.srcPort &&
+		len(t.sentProbes) >= 1 && (!(synack || rstack) || specLast(t).seqNum == tcp.Ack-1) &&
+		specLast(t) != (probeData{}) && specLast(t).ttl == ttl
+}
+
+// specFlowTE: a time-exceeded quoting a probe of this run's flow: destination address and port and,
+// unless relaxed, source address and port.
+func specFlowTE(t *tcpDriver, p *packets.FrameParser) bool {
+	q := p.ICMP4.Payload
+	if !specIsTE4(p) || !packets.SpecQ4ok(q) {
+		return false
+	}
+	l4 := packets.SpecQ4L4(q)
+	if len(l4) < 8 {
+		return false
+	}
+	src := netip.AddrPortFrom(packets.SpecQ4Src(q), binary.BigEndian.Uint16(l4[0:2]))
+	dst := netip.AddrPortFrom(packets.SpecQ4Dst(q), binary.BigEndian.Uint16(l4[2:4]))
+	return dst == specTarget(t) && (t.config.LoosenICMPSrc || src == specLocal(t))
+}
+
+// specQuotedID / specQuotedSeq: the per-probe identifier pair carried by the quote.
+func specQuotedID(p *packets.FrameParser) uint16 { return packets.SpecQ4ID(p.ICMP4.Payload) }
+func specQuotedSeq(p *packets.FrameParser) uint32 {
+	return binary.BigEndian.Uint32(packets.SpecQ4L4(p.ICMP4.Payload)[4:8])
+}
+
+func specPlain4(p *packets.FrameParser) bool {
+	q := p.ICMP4.Payload
+	return packets.SpecQ4Plain(q) && packets.SpecQ4PayLen(q) >= 8
+}
+
+//@ func (*tcpDriver).findMatchingProbe
+//@ safety C09
+//@ requires[pre.nonnil]     t != nil
+//@ requires[pre.nonzero]    forall(k, 0, len(t.sentProbes), t.sentProbes[k].sendTime != 0)
+//@ ensures[C01.find.sound]  ret0 != (probeData{}) ==> exists(k, 0, len(t.sentProbes), t.sentProbes[k] == ret0 && ret0.packetID == packetID && ret0.seqNum == seqNum)
+//@ ensures[C02.find.compl]  forall(k, 0, len(t.sentProbes), t.sentProbes[k].packetID == packetID && t.sentProbes[k].seqNum == seqNum && t.sentProbes[k] != (probeData{}) ==> ret0 != (probeData{}))
+//@ modifies t.mu
+//@ loop 1 invariant[scan]   0 <= range_i && range_i <= len(t.sentProbes) && forall(j, 0, range_i, !(t.sentProbes[j].packetID == packetID && t.sentProbes[j].seqNum == seqNum))
+//@ loop 1 invariant[lock]   held(t.mu)
+
+//@ func (*tcpDriver).getLastSentProbe
+//@ inline
+//@ safety C09
+//@ requires[pre.nonnil]     t != nil
+//@ ensures[C01.last]        (ret1 == nil) == (len(t.sentProbes) >= 1) && (ret1 == nil ==> ret0 == specLast(t))
+//@ modifies t.mu
+
+//@ func (*tcpDriver).handleProbeLayers
+//@ safety C09
+//@ requires[pre.nonnil]     t != nil && t.parser != nil && t.config != nil
+//@ requires[pre.parsed]     packets.SpecParsed(t.parser)
+//@ requires[pre.sent]       len(t.sentProbes) >= 1
+//@ requires[pre.past]       forall(k, 0, len(t.sentProbes), t.sentProbes[k].sendTime <= now() && t.sentProbes[k].sendTime != 0)
+//@ ensures[C09.xor]         (ret0 == nil) != (ret1 == nil)
+//@ ensures[C09.class]       ret1 != nil ==> chain(ret1, *common.ReceiveProbeNoPktError) || chain(ret1, *common.BadPacketError)
+//@ ensures[C01.sound.kind]  ret0 != nil ==> specIsTCP(t.parser) || specIsTE4(t.parser)
+//@ ensures[C01.sound.direct] ret0 != nil && specIsTCP(t.parser) ==> specGenuineDirect(t, t.parser, ret0.TTL)
+//@ ensures[C01.sound.te.flow] ret0 != nil && specIsTE4(t.parser) ==> specFlowTE(t, t.parser)
+//@ ensures[C01.sound.te.id]  ret0 != nil && specIsTE4(t.parser) ==> exists(k, 0, len(t.sentProbes), t.sentProbes[k].packetID == specQuotedID(t.parser) && t.sentProbes[k].seqNum == specQuotedSeq(t.parser) && t.sentProbes[k].ttl == ret0.TTL && t.sentProbes[k].sendTime != 0)
+//@ ensures[C01.addr]        ret0 != nil ==> ret0.IP == packets.SpecOuterSrc(t.parser)
+//@ ensures[C02.compl.direct] forall(ttl, 0, 256, specGenuineDirect(t, t.parser, ttl) ==> ret0 != nil && int(ret0.TTL) == ttl)
+//@ ensures[C02.compl.te]    specPlain4(t.parser) && specFlowTE(t, t.parser) && exists(k, 0, len(t.sentProbes), t.sentProbes[k].packetID == specQuotedID(t.parser) && t.sentProbes[k].seqNum == specQuotedSeq(t.parser)) ==> ret0 != nil
+//@ ensures[C04.dest]        ret0 != nil ==> (ret0.IsDest == specIsTCP(t.parser))
+//@ ensures[C04.dest.src]    ret0 != nil && ret0.IsDest ==> packets.SpecOuterSrc(t.parser) == specTarget(t).Addr()
+//@ ensures[C05.rtt]         ret0 != nil ==> ret0.RTT >= 0 && exists(k, 0, len(t.sentProbes), t.sentProbes[k].ttl == ret0.TTL && ret0.RTT == now() - t.sentProbes[k].sendTime)
+//@ ensures[C01.fresh]       ret0 != nil ==> fresh(ret0)
+//@ modifies t.mu, ghost clock
